@@ -1,7 +1,10 @@
 """C03 -- Ordered collection search returns the first match of the flattened search path.
 
 Obligations: coq/Props/C03.v over the hand model coq/Model/Chain.v (chain rows with integer positions,
-depth-first flattening, the four chain edits with their refusals, three find-first formulations).
+depth-first flattening, the chain edits with their refusals incl. setCollectionChain(flatten=True), dataset types with
+their own governor dimensions, collection summaries per governor dimension, CALIBRATION collections, summary pruning
+under a governor constraint, four find-first formulations).
+Tie T: harness/translators/chain_pos.py regenerates the prepend / extend position arithmetic (Gen/ChainPosGen.v).
 Tie K: random histories (collections, contents, chain edits incl. hostile ones) on the REAL Butler, after every
        step getCollectionChain / collections.query(flatten_chains=True) / raw collection_chain rows / five
        find-first entry points; the Coq model replays the same history (vm_compute) and must answer the same.
@@ -796,18 +799,28 @@ def run_batch(ctx: Ctx, cases, per_worker=6, check_model=True, name="hist"):
 def run(ctx: Ctx):
     ctx.assumptions += [
         "SQLite executes the collection_chain statements as a set of rows with PK (parent, position) and FK child -> collection (modelled; compared on every run through the raw rows)",
-        "contents of RUN/TAGGED collections and collection summaries are taken as a finite table (C02 owns them); premises cont_ok / summaries-sound of the find-first theorems, preserved by every model op (theorem wf_inv)",
+        "contents of RUN/TAGGED/CALIBRATION collections and collection summaries (dataset types; values per governor dimension of the dataset type) are taken as a finite table (C02 owns them); premises cont_ok / summ_ok / calib_ok of the find-first theorems, preserved by every model op (theorem wf_inv)",
+        "every certification has the unbounded validity range (C04 owns timespans): one dataset per (CALIBRATION collection, type, data ID)",
+        "translator harness/translators/chain_pos.py (Python ast -> Gallina, fail-closed) is trusted",
         "sequential histories only; the two-client cycle race belongs to C20",
         "position column is 16-bit on PostgreSQL; the model uses unbounded Z (SQLite does not enforce the width)",
     ]
     ctx.cov["rule"] = (
-        "a history = registration of RUN/TAGGED/CHAINED collections, puts/associations, then 14-30 chain edits "
-        "(redefine via Butler and via Registry, prepend, extend, remove; ~25% hostile: self reference, cycle through "
-        "1..3 levels, unknown child/parent, parent of wrong type, repeated children) with probes after every step. "
+        "a history = registration of RUN/TAGGED/CALIBRATION/CHAINED collections, puts/associations/certifications of 5 "
+        "dataset types ({instrument,detector} x2, {skymap}, calibration {instrument,detector}, {instrument,skymap}), then "
+        "14-30 operations, mostly chain edits (redefine via Butler and via Registry, setCollectionChain(flatten=True), "
+        "prepend, extend, remove; ~25% hostile: self reference, cycle through 1..3 levels, unknown child/parent, parent "
+        "of wrong type, repeated children) with probes after every step; find probes through five entry points, 40% of "
+        "the query-based ones constrained by skymap and/or instrument in the WHERE clause (own or foreign governor). "
         "Counted non-trivial (distinct): an accepted edit on a non-empty chain or with repeated children; a refused edit; "
         "a flattening probe through a chain yielding >= 2 collections; a find-first probe whose flattened path holds "
-        ">= 2 collections containing a match (shadowing decides the answer)"
+        ">= 2 collections containing a match (shadowing decides the answer); a WHERE-constrained query probe whose path "
+        "holds a match"
     )
+    # tie T: the position arithmetic of prepend / extend is regenerated from the source into Gen/ChainPosGen.v;
+    # edit_orders_gen / positions_unique_gen / generated_edit_is_model_edit are stated over the generated definitions
+    from harness.translators import chain_pos
+    ctx.regen("chain_pos", chain_pos.translate)
     props_ok = ctx.build_props(extra_targets=["Model/ChainCheck.vo"])
     if not props_ok:
         from harness.common import coq_make
@@ -819,7 +832,7 @@ def run(ctx: Ctx):
         return
 
     corpus = load_corpus()
-    ncases = int(os.environ.get("VERIF_C03_CASES", "0") or 0) or (96 if ctx.quick else 1200)
+    ncases = int(os.environ.get("VERIF_C03_CASES", "0") or 0) or (72 if ctx.quick else 1200)
     cases = list(corpus)
     for i in range(ncases):
         g = Gen(random.Random(ctx.rng.getrandbits(64)), ctx.rng.randint(14, 30))
